@@ -23,10 +23,10 @@ def handle (fn : String) (args : List Json) : String :=
     | [a0] => (do let x0 ← Wire.decStr a0; pure (Wire.respondWith Wire.encStr (Gen.no_fodselsnummer.get_gender x0)) : Option String).getD "badargs"
     | _ => "badargs"
   | "is_valid" => match args with
-    | [t, a0] => (do let today ← Wire.decDate t; let x0 ← Wire.decStr a0; pure (Wire.respondWith Wire.encBool (Gen.no_fodselsnummer.is_valid today x0)) : Option String).getD "badargs"
+    | [t, a0] => (do let today__ ← Wire.decDate t; let x0 ← Wire.decStr a0; pure (Wire.respondWith Wire.encBool (Gen.no_fodselsnummer.is_valid today__ x0)) : Option String).getD "badargs"
     | _ => "badargs"
   | "validate" => match args with
-    | [t, a0] => (do let today ← Wire.decDate t; let x0 ← Wire.decStr a0; pure (Wire.respondWith Wire.encStr (Gen.no_fodselsnummer.validate today x0)) : Option String).getD "badargs"
+    | [t, a0] => (do let today__ ← Wire.decDate t; let x0 ← Wire.decStr a0; pure (Wire.respondWith Wire.encStr (Gen.no_fodselsnummer.validate today__ x0)) : Option String).getD "badargs"
     | _ => "badargs"
   | _ => "nofunc"
 end Driver.D_no_fodselsnummer
